@@ -151,6 +151,8 @@ fn gen(ctx: &GenCtx, i: u64, prop: &str) -> Option<Run> {
         5 => "exp\u{0}".to_string(),
         6 => " exp".to_string(),
         7 if r.chance(1, 2) => (*r.pick(&["Exp", "EXP", "Iat", "NBF", "Nbf", "AUD", "Iss", "A", "JTI"])).to_string(),
+        // the empty key: the generic builder documents that it ignores it; a repeat is still a repeat
+        8 if r.chance(1, 2) => String::new(),
         _ => "a".to_string(),
     };
     let key_b: String = if r.chance(1, 5) { format!("{}😀{}", "b".repeat(62), "b".repeat(8)) } else { "b".to_string() };
@@ -160,9 +162,35 @@ fn gen(ctx: &GenCtx, i: u64, prop: &str) -> Option<Run> {
     let mut seq = seq;
     seq.push(Sym::Build);
     let mut read_at = created;
+    // the time-claim constructors take ISO 8601 text: forms that are ISO 8601 but not RFC 3339 are accepted
+    // by them and travel as given
+    fn iso_not_rfc(r: &mut Rng, t: i128) -> String {
+        let st = crate::civil::Style { offset_min: *r.pick(&[0, 60, -300, 330]), frac_digits: 0, sep: 'T', zulu: None };
+        let s = crate::civil::render(t, st); // yyyy-mm-ddThh:mm:ss+hh:mm
+        match r.below(5) {
+            0 => format!("{}{}", &s[..22], &s[23..]),                          // +hhmm
+            1 => format!("{}{}", &s[..16], &s[19..]),                          // no seconds
+            2 => s[..19].to_string(),                                          // no offset
+            3 => format!("{}{}{}T{}{}{}Z", &s[..4], &s[5..7], &s[8..10], &s[11..13], &s[14..16], &s[17..19]), // basic format
+            _ => format!("{}{}", &s[..19], &s[19..22]),                        // +hh
+        }
+    }
     for (n, s) in seq.iter().enumerate() {
         let set = |c: ClaimSpec| Op::BuilderOp { b, op: BOp::SetClaim(c) };
+        let odd_iso = r.chance(1, 6);
         match s {
+            Sym::Exp if odd_iso => {
+                let t = created + r.range(60 * NS, 10 * DAY);
+                rb.push(set(ClaimSpec::Exp(iso_not_rfc(&mut r, t - t.rem_euclid(NS)))));
+            }
+            Sym::Nbf if odd_iso => {
+                let t = created - r.range(2 * NS, 10 * DAY).min(created - T_1971 + NS) + NS;
+                rb.push(set(ClaimSpec::Nbf(iso_not_rfc(&mut r, t - t.rem_euclid(NS)))));
+            }
+            Sym::Iat if odd_iso => {
+                let t = created - r.range(0, DAY).min(created - T_1971);
+                rb.push(set(ClaimSpec::Iat(iso_not_rfc(&mut r, t - t.rem_euclid(NS)))));
+            }
             Sym::Exp => {
                 let t = created + r.range(60 * NS, 10 * DAY);
                 rb.push(set(ClaimSpec::Exp(render_canonical(&mut r, t - t.rem_euclid(NS)))));
@@ -189,7 +217,14 @@ fn gen(ctx: &GenCtx, i: u64, prop: &str) -> Option<Run> {
             Sym::Aud => rb.push(set(ClaimSpec::Aud(format!("v{}", n)))),
             Sym::Jti => rb.push(set(ClaimSpec::Jti(format!("v{}", n)))),
             Sym::CustomA => {
-                let value = if r.chance(1, 2) { json!(n) } else { gen_json(&mut r, 2) };
+                let value = match r.below(12) {
+                    0..=5 => json!(n),
+                    // nested members named like registered claims: only top-level names are claims
+                    6 => json!({"exp": "x", "iat": n}),
+                    7 => json!([{"nbf": null}, {"nbf": null}]),
+                    8 => json!({"a": {"exp": 1, "b": {"exp": 2}}, "iss": {"iss": "i"}, "jti": "j", "sub": ["sub"], "aud": {"aud": {"aud": 0}}}),
+                    _ => gen_json(&mut r, 2),
+                };
                 rb.push(set(if bare { ClaimSpec::Bare { key: key_a.clone(), value: if value.is_object() { json!(n) } else { value } } } else { ClaimSpec::Custom { key: key_a.clone(), value } }));
             }
             Sym::CustomB => rb.push(set(if bare { ClaimSpec::Bare { key: key_b.clone(), value: json!([format!("b{}", n)]) } } else { ClaimSpec::Custom { key: key_b.clone(), value: json!(format!("b{}", n)) } })),
